@@ -102,6 +102,9 @@ pub fn solve_instance(input_data: serde_json::Value) -> serde_json::Value {
             .unwrap()
             .unwrap_transition();
 
+        #[cfg(feature = "verif")]
+        solution::verif::record_transition("optimiser_output", vehicle_type, &improved_transition);
+
         optimized_transitions.insert(vehicle_type, improved_transition);
     }
     let schedule_with_optimized_transitions =
